@@ -358,8 +358,11 @@ func (l *Linter) lintSnippetVCL(vcl *ast.VCL, ctx *context.Context) types.Type {
 	// Set the context scope for linting
 	ctx.Scope(scope)
 
+	// Resolve module, snippet inclusion like a block statement does
+	statements := l.resolveIncludeStatements(vcl.Statements, ctx, false)
+
 	// Lint each statement in the snippet
-	for _, s := range vcl.Statements {
+	for _, s := range statements {
 		l.lintStatement(s, ctx)
 	}
 
